@@ -8,6 +8,29 @@ NOT_APPLICABLE = {("C%02d" % i): _PENDING for i in range(1, 21)}
 NODE_NOTE = ("Trusted: Coq kernel + vm_compute; simulator (scheduler/network re-implementation, state dump), boolean equalities; "
              "Not in the model: real sockets/timers/goroutine interleavings, I/O errors.")
 TEXT = {
+ "C14": {
+  "level": "Machine-checked proof (Coq, no axioms) on a crash model of the segmented log in which every operation is the program-ordered list of "
+           "file-system primitives it issues (create, size, store entry, store header, msync, unlink) and the disk is kept as page-cache image and "
+           "last-flushed image: for every operation sequence, every crash point inside the next operation, both the process-kill and the power-loss "
+           "model (header page old or new, arbitrary junk beyond the stable data) reopening succeeds with a contiguous chain, exposes only entries "
+           "really appended at their index, keeps everything a completed commit covered unless the interrupted operation removes it, and never "
+           "resurrects what a completed removal removed. Tied to the code by reopening real crash images taken at every verifPoint (plus page-mixed "
+           "power-loss images) with the real Open and comparing with the model's recovery from the implementation's own disk state.",
+  "design_ref": "DESIGN.md 4.2, 5 (C14)",
+  "note": "Assumed (not provable): atomic durable create/size/unlink, msync durability, whole-page writes. Trusted: image construction, Coq kernel. "
+          "The primitive order per operation is hand-modelled and validated by the images, not extracted from the source.",
+  "technique": "Coq proof over primitive-level crash model (kill + power-loss) + differential recovery of real crash images",
+ },
+ "C05": {
+  "level": "Machine-checked proof (Coq, no axioms) over the node model (one Gallina function per Go handler; every event kind incl. leader events, "
+           "tasks, snapshots and restarts): granted reply => term and vote persisted; every step keeps the term monotone and a cast vote fixed within "
+           "its term; over any history one candidate per term, terms never decrease, reported terms never decrease; the handler as it was before the "
+           "repair is refuted by a witness. Tied to the code by per-event differential execution (single node under adversarial requests with all "
+           "coordinates + simulated clusters).",
+  "design_ref": "DESIGN.md 5 (C05)",
+  "note": NODE_NOTE,
+  "technique": "Coq invariant proof over all node events + per-event differential correspondence with the real handlers",
+ },
  "C01": {
   "level": "Machine-checked proof (Coq, no axioms) of election safety on an abstract vote layer for every cluster size and every interleaving "
            "(one elected node per term; every leader was elected by a majority of recorded votes; one vote per (term, voter)). The vote layer's steps "
